@@ -17,7 +17,7 @@ from harness import session as S
 from harness import ws
 from harness.core import run_forked, setup_repo_imports
 
-EDITACTS = ["access", "call_other", "set_efth", "set_dir", "call_unknown", "other_shape"]
+EDITACTS = ["access", "call_other", "set_efth", "set_dir", "set_freq", "call_unknown", "other_shape"]
 OBS_OPS = ["hs", "dm", "dspr", "tp", "oned", "smooth33", "rotate45", "ptm3", "dd", "stats_dict", "tm02", "dp"]
 
 
@@ -58,12 +58,13 @@ def fresh_table():
     out = {}
     for ver in (1, 2):
         for grid in (1, 2):
-            for kind in ("da", "ds"):
-                for op in OBS_OPS:
-                    obj = S.make(ver, grid)
-                    if kind == "ds":
-                        obj = obj.to_dataset(name="efth")
-                    out[(kind, ver, grid, op)] = observe(obj, op)
+            for fg in (1, 2):
+                for kind in ("da", "ds"):
+                    for op in OBS_OPS:
+                        obj = S.make(ver, grid, fgrid=fg)
+                        if kind == "ds":
+                            obj = obj.to_dataset(name="efth")
+                        out[(kind, ver, grid, fg, op)] = observe(obj, op)
     return out
 
 
@@ -115,7 +116,7 @@ def run(ctx):
             obj = S.make(1, 1)
             if kind_ == "ds":
                 obj = obj.to_dataset(name="efth")
-            cv, cg = 1, 1
+            cv, cg, cf = 1, 1, 1
             try:
                 for a, arg in acts:
                     if a == "access":
@@ -127,12 +128,15 @@ def run(ctx):
                     elif a == "set_efth":
                         cv = arg
                         if kind_ == "ds":
-                            obj["efth"] = S.make(cv, cg)
+                            obj["efth"] = S.make(cv, cg, fgrid=cf)
                         else:
                             obj.values[...] = S.base_values(cv)       # edited in place
                     elif a == "set_dir":
                         cg = arg
                         obj["dir"] = S.GRIDS[cg]
+                    elif a == "set_freq":
+                        cf = arg
+                        obj["freq"] = S.FREQS[cf]
                     elif a == "call_unknown":
                         try:
                             obj.spec.stats(["no_such_statistic"])
@@ -155,14 +159,14 @@ def run(ctx):
                     ctx.violation({"history": [a for a, _ in acts], "kind": kind_, "op": op, "raised": type(ex).__name__},
                                   "%s after history %s raised %s" % (op, list(acts), type(ex).__name__), {"err": str(ex)[:300]})
                     continue
-                exp = table[(kind_, cv, cg, op)]
+                exp = table[(kind_, cv, cg, cf, op)]
                 d = S.circular_same(got, exp, 1e-9) if op in ("dm", "dp") else S.same(got, exp, 1e-9)
                 if d is None:
                     ctx.replayed()
                 else:
                     ctx.violation({"history": [a for a, _ in acts], "kind": kind_, "op": op},
                                   "%s on the %s accessor after history %s differs from a fresh object with the same contents: %s" %
-                                  (op, "Dataset" if kind_ == "ds" else "DataArray", [(a, g) for a, g in acts], d), {"version": cv, "grid": cg})
+                                  (op, "Dataset" if kind_ == "ds" else "DataArray", [(a, g) for a, g in acts], d), {"version": cv, "grid": cg, "fgrid": cf})
     if hist:
         ctx.sample({"kind": "history", "actions": [list(x) for x in hist[len(hist) // 2][0]], "observed": OBS_OPS[:5]})
     # static work area across interleaved partition calls of different shapes: H1 traces (pinit event) validated by WatershedTrace
